@@ -235,6 +235,9 @@ def Target.isTool (t : Target) (l : Label) : Bool := t.tools.any (fun i => i.lab
 def genDir : Str := "plz-out/gen".toList
 def binDir : Str := "plz-out/bin".toList
 
+/-- `Label.PackageDir()`: the package name, "." for the root package. -/
+def TSpec.pkgDir (d : TSpec) : Str := if d.label.pkg = [] then ['.'] else d.label.pkg
+
 /-- `OutDir()` for a non-subrepo target. -/
 def TSpec.outDir (d : TSpec) : Str := pathJoin [if d.bin then binDir else genDir, d.label.sub, d.label.pkg]
 
@@ -256,11 +259,11 @@ structure QuoteFacts where
   right : Str
 deriving Repr, DecidableEq
 
-inductive Err | multi | notexe | noout | testtool | nodep | badlabel | noep | hashfile | slice
+inductive Err | multi | notexe | noout | testtool | zero | nodep | badlabel | noep | hashfile | slice
 deriving Repr, DecidableEq
 
 def Err.name : Err → String
-  | .multi => "multi" | .notexe => "notexe" | .noout => "noout" | .testtool => "testtool"
+  | .multi => "multi" | .notexe => "notexe" | .noout => "noout" | .testtool => "testtool" | .zero => "zero"
   | .nodep => "nodep" | .badlabel => "badlabel" | .noep => "noep" | .hashfile => "hashfile" | .slice => "slice"
 
 instance : DecidableEq (Except Err Str)
@@ -281,7 +284,7 @@ def handleDir (outDir out : Str) (dir : Bool) : Str := if dir then outDir else p
 def fileDestination (self : Bool) (dep : TSpec) (out : Str) (dir outPrefix test : Bool) : Str :=
   if outPrefix then handleDir dep.outDir out dir
   else if test && self then ['.', '/'] ++ out
-  else handleDir dep.label.pkg out dir
+  else handleDir dep.pkgDir out dir
 
 /-- The constant `$(hash //label)` expands to in the harness (a fixed `TargetHasher`). -/
 def hashStub : Str := "gB4sUwsLkB1ODYKUxYrKGlpdYUI".toList
@@ -306,12 +309,15 @@ def checkAndReplace (q : QuoteFacts) (root : Str) (self : Bool) (dep : TSpec) (e
   else if runnable && !dep.bin then .error .notexe
   else if runnable && dep.outs.length = 0 then .error .noout
   else if test && tool then .error .testtool
+  else if allOutputs && !multiple && dep.outs.length = 0 && ep = [] then .error .zero
   else if hash then .ok hashStub
   else if ep = [] then .ok (render q (seqPaths root self dep inp dir outPrefix test allOutputs tool))
   else
     match dep.eps.find? (fun e => e.1 = ep) with
     | none => .error .noep       -- log.Fatalf in Go
-    | some e => .ok (quote q (fileDestination self dep e.2 dir outPrefix test))
+    | some e =>
+      if tool then .ok (quote q (pathJoin [root, handleDir dep.outDir e.2 dir]))    -- filepath.Abs, as in the loop
+      else .ok (quote q (fileDestination self dep e.2 dir outPrefix test))
 
 /-- `replaceSequenceLabel`. -/
 def replaceSequenceLabel (q : QuoteFacts) (root : Str) (t : Target) (label : Label) (ep inp : Str)
@@ -403,7 +409,7 @@ def replaceSequences (seqs : List SeqDef) (q : QuoteFacts) (root : Str) (t : Tar
 /-! ### what exists when the command runs -/
 
 /-- `BuildLabel.Paths`: outputs under the package directory. -/
-def TSpec.paths (d : TSpec) : List Str := d.outs.map fun o => pathJoin [if d.label.pkg = [] then ['.'] else d.label.pkg, o]
+def TSpec.paths (d : TSpec) : List Str := d.outs.map fun o => pathJoin [d.pkgDir, o]
 
 /-- `BuildLabel.FullPaths` / `FullOutputs`: outputs under `plz-out/{gen,bin}`. -/
 def TSpec.fullPaths (d : TSpec) : List Str := d.outs.map fun o => pathJoin [d.outDir, o]
